@@ -247,7 +247,7 @@ def nontrivial(case):
 
 
 def shards(tier):
-    out = [{'name': 'schedules-%d' % i, 'kind': 'hyp', 'examples': 600 if tier == 'quick' else 40000, 'hypothesis': True}
+    out = [{'name': 'schedules-%d' % i, 'kind': 'hyp', 'examples': 1500 if tier == 'quick' else 40000, 'hypothesis': True}
            for i in range(12 if tier == 'quick' else 16)]
     out.append({'name': 'grid', 'kind': 'grid'})
     return out
